@@ -765,3 +765,137 @@ Qed.
 
 Lemma ob_client_writes_excl_true : ob_client_writes_excl = true. Proof. vm_compute. reflexivity. Qed.
 Lemma ob_dial_frame_true : ob_dial_frame = true. Proof. vm_compute. reflexivity. Qed.
+
+(* ================= ownership, exclusivity on the shared connection, the smtp.Client level ================= *)
+(* an object that only goroutine j's program touches is, under every schedule, accessed by j only *)
+Theorem private_object_owner : forall (p0 : pool) j o s,
+  (forall i, i <> j -> touches o (p0 i) = false) ->
+  forall i e a, In (i, e) (trace (run (init p0) s)) -> access e = Some (o, a) -> i = j.
+Proof.
+  intros p0 j o s O i e a Hin Ha. unfold trace in Hin. apply in_rev in Hin.
+  assert (Hp : In e (p0 i)).
+  { apply (run_events_in_prog p0 s (init p0)); simpl; auto. intros ? ? []. }
+  destruct (Nat.eq_dec i j) as [E|Ne]; [assumption|].
+  pose proof (touches_in o a e (p0 i) Hp Ha) as T. rewrite (O i Ne) in T. discriminate.
+Qed.
+
+Lemma rdrs_apply : forall mu e m, (match e with RLock x => negb (N.eqb x m) | _ => true end) = true ->
+  rdrs (mu m) = 0 -> rdrs (apply_ev mu e m) = 0.
+Proof.
+  intros mu e m He Hz. destruct e; simpl in *; try assumption; unfold mupd;
+    destruct (N.eqb_spec m m0); subst; simpl; try assumption; try (rewrite Hz; reflexivity).
+  rewrite N.eqb_refl in He. discriminate.
+Qed.
+
+Lemma rdrs_zero_inv : forall m (p0 : pool) s c,
+  (forall i, no_rlock m (p0 i) = true) ->
+  (forall i e, In e (thr c i) -> In e (p0 i)) -> rdrs (mu c m) = 0 ->
+  rdrs (mu (run c s) m) = 0.
+Proof.
+  intros m p0. induction s as [|j s IH]; intros c N T Z; simpl; [assumption|].
+  apply IH; try assumption; unfold step; destruct (thr c j) as [|e0 t] eqn:Ht; try assumption;
+    destruct (enabled (mu c) e0); try assumption; cbn [thr mu].
+  - intros i e. unfold pupd. destruct (Nat.eqb_spec i j); [|apply T].
+    subst. intros Hin. apply T. rewrite Ht. right. assumption.
+  - apply rdrs_apply; [|assumption].
+    assert (Hin : In e0 (p0 j)) by (apply T; rewrite Ht; left; reflexivity).
+    pose proof (N j) as Nj. unfold no_rlock in Nj. rewrite forallb_forall in Nj. apply (Nj e0 Hin).
+Qed.
+
+(* Exclusivity: if no goroutine ever read-locks m, two different goroutines are never both about to
+   access (read OR write) objects guarded by m — under every schedule. *)
+Theorem shared_exclusive : forall prot n m (p0 : pool) s,
+  (forall i, disc prot h0 (p0 i) = true) -> (forall i, n <= i -> p0 i = []) ->
+  (forall i, no_rlock m (p0 i) = true) ->
+  forall i j e1 t1 e2 t2, i <> j ->
+    thr (run (init p0) s) i = e1 :: t1 -> thr (run (init p0) s) j = e2 :: t2 ->
+    guarded_by prot m e1 = true -> guarded_by prot m e2 = true -> False.
+Proof.
+  intros prot n m p0 s D O NR i j e1 t1 e2 t2 Ne H1 H2 G1 G2.
+  destruct (LInv_run prot n p0 s _ _ (LInv_init prot n p0 D O)) as [H I].
+  assert (Z : rdrs (mu (run (init p0) s) m) = 0).
+  { apply (rdrs_zero_inv m p0 s (init p0)); simpl; auto. }
+  pose proof (li_mok _ _ _ _ _ I m) as M.
+  assert (Hold : forall a e t, thr (run (init p0) s) a = e :: t -> guarded_by prot m e = true -> fst (H a m) = true).
+  { intros a e t Ha G. unfold guarded_by in G. destruct (access e) as [[o rwa]|] eqn:A; [|discriminate].
+    destruct (prot o) as [m'| |] eqn:P; try discriminate. apply N.eqb_eq in G. subst m'.
+    pose proof (li_disc _ _ _ _ _ I a) as Da. rewrite Ha in Da.
+    pose proof (access_check prot _ _ _ _ _ A Da) as C. rewrite P in C.
+    assert (La : a < n).
+    { destruct (Nat.lt_ge_cases a n) as [L|L]; [assumption|]. rewrite (li_out _ _ _ _ _ I a L) in Ha. discriminate. }
+    assert (S0 : snd (H a m) = 0).
+    { pose proof (rsum_le H m n a La) as Le. rewrite <- (mk_rd _ _ _ _ M), Z in Le. lia. }
+    rewrite S0 in C. simpl in C. rewrite andb_false_r, orb_false_r in C. exact C. }
+  apply Ne. apply (mk_one _ _ _ _ M); [eapply Hold; eassumption | eapply Hold; eassumption].
+Qed.
+
+Lemma private_ok_none : forall prot l, (forall t, In t l -> no_private prot t = true) -> private_ok prot (pool_of l).
+Proof.
+  intros prot l Hn i j o _ Pr Ti _. unfold touches in Ti. apply existsb_exists in Ti. destruct Ti as [e [Hin He]].
+  unfold pool_of in Hin. destruct (nth_in_or_default i l []) as [Hl|Hl]; [|rewrite Hl in Hin; destruct Hin].
+  specialize (Hn _ Hl). unfold no_private in Hn. rewrite forallb_forall in Hn. specialize (Hn e Hin).
+  destruct (access e) as [[o' a]|]; [|discriminate]. apply obj_eqb_eq in He. subst o'. rewrite Pr in Hn. discriminate.
+Qed.
+
+Lemma hole_ok_no_rlock : forall prot g m b, hole_ok prot g b = true -> no_rlock m b = true.
+Proof.
+  intros prot g m b H. unfold hole_ok in H. unfold no_rlock. rewrite forallb_forall in *. intros e Hin.
+  specialize (H e Hin). destruct e; simpl in *; try reflexivity; discriminate.
+Qed.
+
+Lemma no_rlock_fill : forall m b t, no_rlock m b = true -> no_rlock_h m t = true -> no_rlock m (fill b t) = true.
+Proof.
+  intros m b. induction t as [|[e|] t IH]; intros Hb Ht; simpl in *; [reflexivity| |].
+  - apply andb_true_iff in Ht. destruct Ht as [H1 H2]. unfold no_rlock in *. simpl. rewrite H1. simpl. apply IH; assumption.
+  - unfold no_rlock in *. rewrite forallb_app, Hb. simpl. apply IH; assumption.
+Qed.
+
+Lemma ob_unlocked_reads_stable_true : ob_unlocked_reads_stable = true. Proof. vm_compute. reflexivity. Qed.
+Lemma ob_smtpclient_single_writer_true : ob_smtpclient_single_writer = true. Proof. vm_compute. reflexivity. Qed.
+Lemma ob_smtp_text_conn_locked_true : ob_smtp_text_conn_locked = true. Proof. vm_compute. reflexivity. Qed.
+Lemma ob_private_client_owned_true : ob_private_client_owned = true. Proof. vm_compute. reflexivity. Qed.
+Lemma ob_send_no_rlock_true : ob_send_no_rlock = true. Proof. vm_compute. reflexivity. Qed.
+
+Lemma send_goroutine_no_rlock : forall p b, In p send_paths -> hole_ok prot_c13 send_mutex b = true ->
+  no_rlock send_mutex (send_goroutine (p, b)) = true.
+Proof.
+  intros p b Hp Hb. unfold send_goroutine. simpl. rewrite inst_fill. apply no_rlock_fill.
+  - eapply hole_ok_no_rlock; eassumption.
+  - pose proof ob_send_no_rlock_true as H. unfold ob_send_no_rlock in H. rewrite forallb_forall in H. apply H. assumption.
+Qed.
+
+(* on the shared connection every access to connection 0 and to its smtp.Client goes through sendMutex:
+   two goroutines are never both about to touch them, whatever the schedule *)
+Theorem c13_shared_conn_exclusive : forall sends others sched,
+  (forall p b, In (p, b) sends -> In p send_paths /\ hole_ok prot_c13 send_mutex b = true) ->
+  (forall t, In t others -> disc prot_c13 h0 t = true /\ no_rlock send_mutex t = true) ->
+  forall i j e1 t1 e2 t2, i <> j ->
+    thr (run (init (c13_pool sends others)) sched) i = e1 :: t1 ->
+    thr (run (init (c13_pool sends others)) sched) j = e2 :: t2 ->
+    guarded_by prot_c13 send_mutex e1 = true -> guarded_by prot_c13 send_mutex e2 = true -> False.
+Proof.
+  intros sends others sched Hs Ho.
+  apply (shared_exclusive prot_c13 (length (map send_goroutine sends ++ others)) send_mutex).
+  - unfold c13_pool. apply (pool_of_all (fun t => disc prot_c13 h0 t = true)); [reflexivity|]. intros t Ht.
+    apply in_app_or in Ht. destruct Ht as [Ht|Ht]; [|apply Ho; assumption].
+    apply in_map_iff in Ht. destruct Ht as [[p b] [E Hin]]. subst t.
+    destruct (Hs p b Hin). apply send_goroutine_disc; assumption.
+  - intros i L. unfold c13_pool, pool_of. apply nth_overflow. assumption.
+  - unfold c13_pool. apply (pool_of_all (fun t => no_rlock send_mutex t = true)); [reflexivity|]. intros t Ht.
+    apply in_app_or in Ht. destruct Ht as [Ht|Ht]; [|apply Ho; assumption].
+    apply in_map_iff in Ht. destruct Ht as [[p b] [E Hin]]. subst t.
+    destruct (Hs p b Hin). apply send_goroutine_no_rlock; assumption.
+Qed.
+
+(* the smtp.Client level alone: even with the sendMutex bracket removed (the pool of the refutation witness,
+   whose TRANSACTIONS interleave), the cmd / dataCloser sections generated from the source are mutually
+   exclusive: no two goroutines are ever about to touch the connection or the smtp.Client's fields at
+   the same time — for every schedule *)
+Theorem cmd_sections_exclusive : forall sched, race_free (run (init nolock_pool) sched).
+Proof.
+  intros sched. apply (lockset_sound prot_inner 2).
+  - unfold nolock_pool. apply (pool_of_all (fun t => disc prot_inner h0 t = true)); [reflexivity|].
+    intros t [E|[E|[]]]; subst t; vm_compute; reflexivity.
+  - intros i L. unfold nolock_pool, pool_of. apply nth_overflow. simpl. assumption.
+  - unfold nolock_pool. apply private_ok_none. intros t [E|[E|[]]]; subst t; vm_compute; reflexivity.
+Qed.
